@@ -175,14 +175,22 @@ def same_num(got, exp):
 
 
 def run_sorts(rep, b, env, rng, tier):
-    inputs = sort_inputs(rng, tier)
+    all_inputs = sort_inputs(rng, tier)
+    procs_all = []
+    rep.extra["sort_inputs"] = len(all_inputs)
+    for off in range(0, len(all_inputs), 400):         # chunks bound the memory held at any time
+        heap_lines(rep, run_sort_chunk(rep, b, env, rng, all_inputs[off:off + 400], off))
+    return procs_all
+
+
+def run_sort_chunk(rep, b, env, rng, inputs, off):
     procs_all = []
     for lib, imports, table in (("srfi95", "(import (scheme base) (scheme write) (scheme process-context) (srfi 95))", SORT95),
                                 ("srfi132", "(import (scheme base) (scheme write) (scheme process-context) (srfi 132))", SORT132)):
         cases = []
         meta = {}
         for ci, (n, shape, keys) in enumerate(inputs):
-            cid = "%s-s%d" % (lib, ci)
+            cid = "%s-s%d" % (lib, off + ci)
             exprs = [t[3] for t in table]
             extra = ""
             if lib == "srfi95":
@@ -225,8 +233,8 @@ def run_sorts(rep, b, env, rng, tier):
         nops = 0
         for cid, form in cases:
             nops += judge_sort(rep, lib, table, meta[cid], res.get(cid), form)
-        rep.extra["ops_" + lib] = nops
-        rep.extra["sort_inputs"] = len(inputs)
+        rep.count("ops_" + lib, nops)
+        procs_all = [p for p in procs_all]
     return procs_all
 
 
@@ -555,14 +563,45 @@ def judge_history(rep, h, res):
     return done
 
 
+class SlimReport:
+    """Forwards to the Report but keeps full witnesses only for the first few violations of a signature."""
+
+    def __init__(self, rep, keep=20):
+        self._rep = rep
+        self._n = {}
+        self._keep = keep
+
+    def __getattr__(self, name):
+        return getattr(self._rep, name)
+
+    def violation(self, sig, wit):
+        key = tuple(sorted((k, str(v)) for k, v in sig.items()))
+        self._n[key] = self._n.get(key, 0) + 1
+        if self._n[key] > self._keep:
+            wit = {"note": "witness omitted: more than %d occurrences of this signature in the run" % self._keep}
+        self._rep.violation(sig, wit)
+
+
+def heap_lines(rep, procs):
+    for p in procs:
+        for l in p.log_lines("HEAPCHECK-FAIL"):
+            rep.violation({"lib": "heapcheck", "mode": l.split()[1] if len(l.split()) > 1 else "?"}, {"line": l})
+        for d in p.log_kv("HEAPCHECK-SUMMARY"):
+            rep.count("heap_checks", d.get("runs", 0))
+            rep.count("heap_objects_checked", d.get("objects", 0))
+    rep.count("processes", len(procs))
+
+
 def check(rep, tier, seed, variant="hooks"):
+    real = rep
+    rep = SlimReport(real)
     rng = random.Random(seed * 130003 + 18)
     b = B.ensure(variant)
-    rep.builds.add(variant)
+    real.builds.add(variant)
     env = {"CHIBI_VERIF_HEAPCHECK": 1}
     quick = tier == "quick"
-    procs = run_sorts(rep, b, env, rng, tier)
-    nh = 60 if quick else 5000
+    heap_lines(rep, run_sorts(rep, b, env, rng, tier))
+    nh = 45 if quick else 4000
     for lib in L.LIBS:
         hs = []
         for i in range(nh):
@@ -570,7 +609,7 @@ def check(rep, tier, seed, variant="hooks"):
             hs.append(gen_history(lib, rng, "%s-h%d" % (lib.name, i), nops))
         res, ps = C.run_batches(b, lib.imports, ENGINE_HEADER + lib.header, [(h["id"], h["form"]) for h in hs], batch=5,
                                 env_extra=env, timeout=30, heap="64M/512M")
-        procs += ps
+        heap_lines(rep, ps)
         ops = 0
         for h in hs:
             ops += judge_history(rep, h, res.get(h["id"]))
@@ -579,13 +618,7 @@ def check(rep, tier, seed, variant="hooks"):
         rep.extra["op_kinds_" + lib.name] = len({s[0] for h in hs for s in h["steps"]})
         if hs:
             rep.sample({"lib": lib.name, "history": hs[0]["form"][:500]})
-    for p in procs:
-        for l in p.log_lines("HEAPCHECK-FAIL"):
-            rep.violation({"lib": "heapcheck", "mode": l.split()[1] if len(l.split()) > 1 else "?"}, {"line": l})
-        for d in p.log_kv("HEAPCHECK-SUMMARY"):
-            rep.count("heap_checks", d.get("runs", 0))
-            rep.count("heap_objects_checked", d.get("objects", 0))
-    rep.extra["processes"] = len(procs)
+    rep = real
     rep.rule = ("sorts: every length 0..40 and selected lengths up to 2000 x shapes sorted/reversed/organ-pipe/constant/"
                 "few-distinct/random, elements (key . unique tag), every algorithm of (srfi 95) and (srfi 132) on lists and "
                 "vectors with opcode and Scheme-procedure orderings, key argument, ranges; distinct = (library, procedure, "
